@@ -91,3 +91,11 @@ META = {
     'reach_required': ['scheduled', 'eviction_put', 'restored_after_eviction',
                        'displaced_for_instance_ahead'],
 }
+
+
+def weight(name, spec):
+    if 'set_priority' in name or 'replace_server' in name:
+        return 5
+    if 'unplaceable' in name:
+        return 1
+    return 2
